@@ -16,6 +16,8 @@ pub(crate) enum Error {
     CannotBuildBuildpackDependencyGraph(#[source] BuildBuildpackDependencyGraphError),
     #[error("Failed to get dependencies: {0}")]
     CannotGetDependencies(#[source] GetDependenciesError<BuildpackId>),
+    #[error("Failed to remove existing buildpack package directory {0}: {1}")]
+    CannotRemoveBuildpackDestinationDir(PathBuf, #[source] std::io::Error),
     #[error("Failed to create buildpack package directory {0}: {1}")]
     CannotCreateBuildpackDestinationDir(PathBuf, #[source] std::io::Error),
     #[error("Failed to package buildpack: {0}")]
